@@ -207,11 +207,13 @@ def _if_to_call(node: ast.If, module: str, func_loc: str):
             name = ast.Name(id=node.body[0].target.id, ctx=ast.Load())
         args.append(name)
     elif isinstance(node.orelse[0], ast.Return):
+        _fail_if_branches_differ_in_target(node, func_loc=func_loc)
         args.append(node.orelse[0].value)
     elif isinstance(node.orelse[0], ast.If):
         call = _if_to_call(node.orelse[0], module=module)
         args.append(call)
     elif isinstance(node.orelse[0], ast.Assign | ast.AugAssign):
+        _fail_if_branches_differ_in_target(node, func_loc=func_loc)
         if isinstance(node.orelse[0].value, ast.IfExp):
             call = _ifexp_to_call(node.orelse[0].value, module=module)
             args.append(call)
@@ -229,6 +231,24 @@ def _if_to_call(node: ast.If, module: str, func_loc: str):
         keywords=[],
     )
     return call
+
+
+def _assigned_name(node: ast.AST):
+    """Name a statement assigns to; None for a return statement."""
+    if isinstance(node, ast.Assign):
+        return getattr(node.targets[0], "id", None)
+    elif isinstance(node, ast.AugAssign):
+        return getattr(node.target, "id", None)
+    return None
+
+
+def _fail_if_branches_differ_in_target(node: ast.If, func_loc: str):
+    """The if- and the else-branch are merged into one where() call that is assigned to
+    the target of the if-branch. This is only correct if both assign to the same name
+    (or both return)."""
+    if _assigned_name(node.body[0]) != _assigned_name(node.orelse[0]):
+        msg = _different_targets_error_message(node, func_loc=func_loc)
+        raise TranslateToVectorizableError(msg)
 
 
 def _ifexp_to_call(node: ast.IfExp, module: str):
@@ -386,6 +406,20 @@ def _too_many_operations_error_message(node: ast.If, func_loc: str):
         "\n\n"
         "An if statement is performing multiple operations, which is forbidden.\n"
         "Please only perform one operation in the body of an if-elif-else statement."
+        f"\n\nFunction: {func_loc}\n\n"
+        "Problematic source code (after transformations that were possible, if any):"
+        f"\n\n{source}\n"
+    )
+    return msg
+
+
+def _different_targets_error_message(node: ast.If, func_loc: str):
+    source = _node_to_formatted_source(node)
+    msg = (
+        "\n\n"
+        "The branches of an if-else statement assign to different variables (or one "
+        "branch returns while the other assigns), which is forbidden.\n"
+        "Please assign to the same variable in all branches."
         f"\n\nFunction: {func_loc}\n\n"
         "Problematic source code (after transformations that were possible, if any):"
         f"\n\n{source}\n"
